@@ -188,10 +188,19 @@ def _mdp_env(ctx, i, kind="discrete", tl=None):
 
     nS, nA = int(ctx.rng.integers(3, 7)), int(ctx.rng.integers(2, 4))
     tabs = random_tables(ctx.rng, nS, nA, p_term=0.3)
-    env = FiniteMDP(tabs["P"], tabs["R"], tabs["term"], tabs["starts"], trunc=tabs["trunc"], kind=kind)
+    env = FiniteMDP(tabs["P"], tabs["R"], tabs["term"], tabs["starts"], trunc=tabs["trunc"], kind=kind,
+                    obs_kind="onehot_t")
     if tl:
         env = TimeLimit(env, tl)
     return env, tabs
+
+
+def _true_dones(obs, final_t):
+    """Real episode ends of one stream, read from the environment's own episode clock (last observation
+    entry): step k ended an episode iff the next acting state has clock 0."""
+    t = np.round(np.asarray(obs)[:, -1]).astype(int)
+    nxt = np.concatenate([t[1:], [int(final_t)]])
+    return nxt == 0
 
 
 def u_algo(ctx):
@@ -243,6 +252,13 @@ def u_algo(ctx):
                 continue
             r, v, d, last, g, lam, adv, ret = seen["last"]
             ctx.monitor("contract_concrete_evaluations")
+            inner = ss.env_state.env_state if tl else ss.env_state
+            d_true = _true_dones(np.asarray(buf.observations), int(inner.t))
+            ctx.monitor("true_episode_ends_in_algo_rollouts", int(d_true.sum()))
+            if not np.array_equal(d_true, np.asarray(d, bool)):
+                ctx.violation("estimator-not-cut-at-true-episode-ends",
+                              {"algo": cls.__name__, "true_ends": d_true.astype(int), "dones_given_to_estimator": np.asarray(d).astype(int)})
+            d = d_true
             # the estimator must be called with the algorithm's own gamma / lambda
             if abs(g - algo.gamma) > 1e-6 or abs(lam - algo.gae_lambda) > 1e-6:
                 ctx.violation("algo-passes-wrong-gamma-lambda", {"algo": cls.__name__, "gamma": g, "lam": lam,
@@ -262,6 +278,7 @@ def u_algo(ctx):
     ctx.notes["contract_calls"] = seen["n"]
     ctx.notes["contract_concrete"] = seen["concrete"]
     ctx.require("contract_concrete_evaluations", 3)
+    ctx.require("true_episode_ends_in_algo_rollouts", 3)
 
 
 def u_vector(ctx):
@@ -294,8 +311,16 @@ def u_vector(ctx):
         if R.shape != (E, T):
             ctx.violation("vector-rollout-shape", {"shape": R.shape, "want": [E, T]})
             continue
+        tl_on = (i % 2 == 1)
+        inner_t = np.asarray((ss.env_state.env_state if tl_on else ss.env_state).t)
+        OBS = np.asarray(buf.observations)
         for e in range(E):
-            _compare(ctx, "vector", R[e], V[e], D[e], lasts[e], algo.gamma, algo.gae_lambda, A[e], RET[e], f"vmap-env{e}of{E}")
+            d_true = _true_dones(OBS[e], inner_t[e])
+            ctx.monitor("true_episode_ends_in_vector_rollouts", int(d_true.sum()))
+            if not np.array_equal(d_true, D[e]):
+                ctx.violation("estimator-not-cut-at-true-episode-ends",
+                              {"env": e, "true_ends": d_true.astype(int), "recorded_dones": D[e].astype(int)})
+            _compare(ctx, "vector", R[e], V[e], d_true, lasts[e], algo.gamma, algo.gae_lambda, A[e], RET[e], f"vmap-env{e}of{E}")
         # the flattened-batch estimate must differ (otherwise this run could not tell them apart)
         a_flat, _, _ = gae_ref(R.reshape(-1), V.reshape(-1), D.reshape(-1), lasts[-1], algo.gamma, algo.gae_lambda)
         if np.max(np.abs(a_flat.reshape(E, T) - A)) > 1e-3:
